@@ -517,7 +517,11 @@ func (b *builder) assignTarget(lhs ast.Expr, frontier []int, fc *fnCtx) []int {
 			return b.locAccess(id, true, true, frontier, fc)
 		}
 		if id := baseIdentNode(lhs); id != nil {
-			return b.locAccess(id, true, false, frontier, fc)
+			elem := false
+			if ix, ok := lhs.(*ast.IndexExpr); ok {
+				_, elem = ix.X.(*ast.Ident)
+			}
+			return b.locAccessE(id, true, false, elem, frontier, fc)
 		}
 		return frontier
 	}
@@ -769,10 +773,10 @@ func (b *builder) stmtL(s ast.Stmt, frontier []int, fc *fnCtx, label string) []i
 		frontier = b.expr(x.X, frontier, fc)
 		if b.loc != nil && x.Tok == token.DEFINE {
 			if id, ok := x.Key.(*ast.Ident); ok {
-				b.locDeclare(id, fc)
+				b.locDeclareIter(id, fc)
 			}
 			if id, ok := x.Value.(*ast.Ident); ok {
-				b.locDeclare(id, fc)
+				b.locDeclareIter(id, fc)
 			}
 		}
 		if f, ok := b.baseField(x.X, fc); ok && fc.alias != nil && x.Tok == token.DEFINE {
